@@ -13,6 +13,21 @@ CORE_TRUSTED = ["math/big, crypto/sha256, encoding/asn1, encoding/json (modelled
                 "ECDSA/CBOR verification of signed accumulators enters the model as an observed oracle value"]
 
 PROPS = {
+    "C01": {
+        "suite": "C01", "ref_sample": 2, "trusted": CORE_TRUSTED,
+        "assumptions": ["'the reported value was signed' beyond the algebraic facts proved (challenge equation, ranges, index sets, order-shift invariance) rests on the CL03 strong-RSA reduction, cited not mechanised"],
+        "partial": ["final step from the verified relation to 'value was signed' is the CL03 unforgeability reduction (not mechanised)"],
+    },
+    "C02": {
+        "suite": "C02", "ref_sample": 2, "trusted": CORE_TRUSTED,
+        "assumptions": ["SHA-256 collision resistance is not assumed: session_binding concludes equal hash inputs or an explicit collision"],
+        "partial": [],
+    },
+    "C03": {
+        "suite": "C03", "ref_sample": 2, "trusted": CORE_TRUSTED,
+        "assumptions": ["equal secret-key responses under one challenge imply equal secrets by the two-transcript extractor of the Schnorr proof (standard; cited)"],
+        "partial": ["extractor argument from equal responses to equal secret values is cited, not mechanised"],
+    },
     "C08": {
         "suite": "C08",
         "ref_sample": 4,
